@@ -74,7 +74,9 @@ ENV = ("g_Interrupt cpu' = g_Interrupt cpu /\\ g_Memory cpu' = g_Memory cpu /\\ 
 out, names = gen('exec_env', lambda t: "let cpu' := exec u m %s cpu in %s" % (t, ENV), "destruct m; ",
                  "spec_norm; first [ solve [repeat split] | solve [split_ifs; repeat split] ].", extra_params="(m : mode)")
 out += ["Lemma exec_keeps_env u m i cpu : let cpu' := exec u m i cpu in %s." % ENV,
-        "Proof. destruct i; [ " + " | ".join("apply %s" % n for n in names) + " ]. Qed."]
+        "Proof. destruct i; [ " + " | ".join("apply %s" % n for n in names) + " ]. Qed.",
+        "Lemma exec_idxcb_keeps_env u m dd i cpu : let cpu' := exec_idxcb u m dd i cpu in %s." % ENV,
+        "Proof. destruct m; all_cases i; try rename b into b_; open_cpu cpu; spec_norm; first [ solve [repeat split] | solve [split_ifs; repeat split] ]. Qed."]
 wr('SpecAllEnv.v', out)
 
 out, names = gen('exec_ir', lambda t: "g_IR (exec u m %s cpu) = g_IR cpu" % t, "destruct m; ",
@@ -100,4 +102,12 @@ out += ["Lemma exec_no_panic u m i cpu : " + PAN % "i" + ".",
         "Lemma exec_idxcb_no_panic u m dd i cpu : mem_safe (g_Memory cpu) -> npanics (trace (g_W (exec_idxcb u m dd i cpu))) = npanics (trace (g_W cpu)).",
         "Proof. destruct m; all_cases i; try rename b into b_; open_cpu cpu; intros Hs; unfold mem_safe in Hs; cbv_struct_in Hs; spec_norm; first [ panic_close Hs | split_ifs; panic_close Hs ]. Qed."]
 wr('SpecAllPanic.v', out)
+out, names = gen('exec_wf', lambda t: "instr_ok %s -> WF cpu -> WF (exec u m %s cpu)" % (t, t), "destruct m; ",
+                 "intros Hi H; wf_open H; wf_norm; wf_ifs; wf_close.", extra_params="(m : mode)")
+out += ["Lemma exec_wf u m i cpu : instr_ok i -> WF cpu -> WF (exec u m i cpu).",
+        "Proof. destruct i; [ " + " | ".join("apply %s" % n for n in names) + " ]. Qed.",
+        "Lemma exec_idxcb_wf u m dd i cpu : instr_ok i -> WF cpu -> WF (exec_idxcb u m dd i cpu).",
+        "Proof. destruct m; all_cases i; try rename b into b_; open_cpu cpu; intros Hi H; wf_open H; wf_norm; wf_ifs; wf_close. Qed."]
+out[2] = "From Z80V Require Export Proofs.WFTac."
+wr('SpecAllWF.v', out)
 print("constructors:", len(ctors))
